@@ -924,6 +924,8 @@ def c09_oracle(case, impl):
     if not secs.get("ld", "").startswith("ok"):
         return None
     length = le(region, 8, 4)
+    if length < 16 or length % 8 != 0:
+        return "a malformed header length (%d) was accepted instead of an error / controlled panic (the 16 header bytes reach beyond the declared length)" % length
     walk, wend = hspec_walk(region)
     tags = {o: s for (o, t, s, fl) in walk}
     for name, val in secs.items():
